@@ -118,6 +118,7 @@ type Machine struct {
 	dec     []int
 	decName []string
 	pending [][]int
+	known   map[int]bool
 
 	globals  map[*ssa.Global]*Object
 	initDone map[*ssa.Package]bool
@@ -190,6 +191,30 @@ func (m *Machine) assume(c *term.T) {
 		return
 	}
 	m.pc = append(m.pc, c)
+	if m.known == nil {
+		m.known = map[int]bool{}
+	}
+	m.learn(c)
+}
+
+// learn records literals implied syntactically by the path condition so that
+// re-evaluating the same condition needs no solver call.
+func (m *Machine) learn(c *term.T) {
+	switch c.Op {
+	case term.OAnd:
+		for _, a := range c.A {
+			m.learn(a)
+		}
+	case term.ONot:
+		m.known[c.A[0].ID] = false
+		if c.A[0].Op == term.OOr {
+			for _, a := range c.A[0].A {
+				m.learn(m.F.Not(a))
+			}
+		}
+	default:
+		m.known[c.ID] = true
+	}
 }
 
 func (m *Machine) flushPC() {
@@ -221,6 +246,14 @@ func (m *Machine) feasible(extra *term.T) smt.Result {
 func (m *Machine) branch(c *term.T, what string) bool {
 	if c.IsConst() {
 		return c.V == 1
+	}
+	if v, ok := m.known[c.ID]; ok {
+		return v
+	}
+	if c.Op == term.ONot {
+		if v, ok := m.known[c.A[0].ID]; ok {
+			return !v
+		}
 	}
 	d := len(m.dec)
 	if d < len(m.prefix) {
